@@ -4,6 +4,15 @@
 K = {"name": "TestKnown", "enum": True}
 
 CHECKS = {
+    "C18": {
+        "level": "exploration",
+        "tests": [
+            {"name": "TestC18Immutable", "checks": [3000, 15000], "shards": [2, 16], "floor": 0.85},
+            {"name": "TestC18Race", "checks": [150, 1500], "shards": [1, 8], "race": True, "floor": 0.85},
+            K,
+        ],
+        "assumptions": ["the Go race detector reports a write to shared caller data when it overlaps a read by another render (20 renders from 4 goroutines per case)"],
+    },
     "C15": {
         "level": "exploration",
         "tests": [
